@@ -1,14 +1,19 @@
 ------------------------------ MODULE MC_PubString ------------------------------
 EXTENDS PubString, Json
 CONSTANT Samples          \* set of <<time8 bytes, imprint bytes>>
+CONSTANT Bodies           \* set of <<time8 bytes, bytes after the time>>: only FromString's verdict on the (correctly check-summed) string is asked for --
+                          \* one per algorithm id with its digest length, one octet less, one more; unknown ids; every known algorithm must round-trip
 VARIABLE c                \* [smp, kind, pos] : one valid string and one position
 Str(smp) == PubToString(smp[1], smp[2])
 Others(ch) == {Alphabet[v] : v \in 1..32} \ {ch}
 (* positions are successor states so that TLC's workers share the work *)
-Init == c \in {[smp |-> s, pos |-> -1, blk |-> b] : s \in Samples, b \in 0..15}
+(* the base-32 encoder on its own: 1..11 octets (every padding length, data ending on and off a group boundary) x group lengths 0 (none), 1, 3, 6, 7 *)
+B32Data(n) == [k \in 1..n |-> (37 * k + 11 * n) % 256]
+B32Cases == {[smp |-> <<B32Data(n), <<g>>>>, pos |-> -3, blk |-> 0] : n \in 1..11, g \in {0, 1, 3, 6, 7}}
+Init == c \in {[smp |-> s, pos |-> -1, blk |-> b] : s \in Samples, b \in 0..15} \cup {[smp |-> s, pos |-> -2, blk |-> 0] : s \in Bodies} \cup B32Cases
 Next == c.pos = -1 /\ \E p \in (8 * c.blk)..(8 * c.blk + 7) : c' = [c EXCEPT !.pos = p]
 Spec == Init /\ [][Next]_c
-S == Str(c.smp)
+S == IF c.pos = -3 THEN EncodeBy(c.smp[1], c.smp[2][1]) ELSE Str(c.smp)
 Active == c.pos = 0 \/ (c.pos >= 1 /\ c.pos <= Len(S) /\ InAlphabet(S[c.pos]))
 Subst(ch) == [S EXCEPT ![c.pos] = ch]
 (* next symbol position (skipping the dash) for a transposition *)
@@ -18,7 +23,10 @@ Same(r) == r.ok /\ r.time = c.smp[1] /\ r.imprint = c.smp[2]
 (* the theorem: the valid string round-trips; every single-symbol substitution and every adjacent transposition of different symbols *)
 (* is rejected, unless the decoded bytes are identical (only unused trailing pad bits changed)                                     *)
 Detected(s2) == LET r == FromString(s2) IN ~r.ok \/ (Decode(s2) = Decode(S) /\ Same(r))
-Theorem == IF c.pos = -1 THEN TRUE ELSE IF c.pos = 0 THEN Same(FromString(S))
+(* a body is a publication exactly when it is an imprint of a known algorithm: its id followed by exactly that algorithm's digest length *)
+IsImprint(b) == Len(b) >= 1 /\ HashLen(b[1]) # 0 /\ Len(b) = 1 + HashLen(b[1])
+Theorem == IF c.pos = -1 THEN TRUE ELSE IF c.pos = -3 THEN Decode(S) = c.smp[1] \o [k \in 1..(Len(Decode(S)) - Len(c.smp[1])) |-> 0] ELSE IF c.pos = -2 THEN (FromString(S).ok <=> IsImprint(c.smp[2])) /\ (FromString(S).ok => Same(FromString(S)))
+           ELSE IF c.pos = 0 THEN Same(FromString(S))
            ELSE Active => /\ \A ch \in Others(S[c.pos]) : Detected(Subst(ch))
                           /\ (NextPos <= Len(S) /\ InAlphabet(S[NextPos]) /\ S[NextPos] # S[c.pos]) => Detected(Swapped)
 Verdicts == IF c.pos = 0 THEN [str |-> S, pos |-> 0]
@@ -26,5 +34,6 @@ Verdicts == IF c.pos = 0 THEN [str |-> S, pos |-> 0]
                   subst |-> [v \in 1..32 |-> IF Alphabet[v] = S[c.pos] THEN TRUE ELSE FromString(Subst(Alphabet[v])).ok],
                   swap |-> IF NextPos <= Len(S) /\ InAlphabet(S[NextPos]) THEN FromString(Swapped).ok ELSE FALSE,
                   swapped |-> IF NextPos <= Len(S) /\ InAlphabet(S[NextPos]) THEN Swapped ELSE <<>>]
-Emit == (c.pos = 0 \/ (c.pos > 0 /\ Active)) => PrintT("CASE " \o ToJson([smp |-> c.smp, v |-> Verdicts]))
+Emit == IF c.pos = -3 THEN PrintT("CASE " \o ToJson([smp |-> c.smp, v |-> [str |-> S, pos |-> -3]])) ELSE IF c.pos = -2 THEN PrintT("CASE " \o ToJson([smp |-> c.smp, v |-> [str |-> S, pos |-> -2, res |-> FromString(S)]]))
+        ELSE (c.pos = 0 \/ (c.pos > 0 /\ Active)) => PrintT("CASE " \o ToJson([smp |-> c.smp, v |-> Verdicts]))
 =============================================================================
